@@ -189,7 +189,8 @@ def run_bottomup(case, frames, idxs):
         "MultiInstanceConfmapsHead": (slice(0, n), case["stride"]),
         "PartAffinityFieldsHead": (slice(n, n + 2 * (n - 1)), case["paf_stride"]),
     }
-    scorer = PAFScorer(part_names=names, edges=edges, pafs_stride=case["paf_stride"], min_line_scores=-1.0, max_edge_length_ratio=2.0)
+    scorer = PAFScorer(part_names=names, edges=edges, pafs_stride=case["paf_stride"], min_line_scores=-1.0,
+                       max_edge_length_ratio=case.get("edge_ratio", 2.0))
     m = BottomUpInferenceModel(
         torch_model=IdentityNet(heads=heads), paf_scorer=scorer, cms_output_stride=case["stride"], pafs_output_stride=case["paf_stride"],
         peak_threshold=case["thr"], refinement=case["refinement"], integral_patch_size=5, input_scale=1.0,
@@ -213,12 +214,20 @@ def evaluate(case):
     c = case["channels"]
     frames = [make_frame(fr, c, case["h"], case["w"]) for fr in case["frames"]]
     batch = case["batch"]
-    res.cls(f"model={model}", f"B={len(batch)}", f"refine={case['refinement']}", f"k={case['max_instances']}")
+    res.cls(f"model={model}", f"B={min(len(batch), 5)}{'+' if len(batch) > 5 else ''}", f"refine={case['refinement']}", f"k={case['max_instances']}")
     res.n_evals = 0
     runfn = {"single": run_single, "centroids": run_centroids_only, "bottomup": run_bottomup}.get(model)
 
     def cmp_record(tag, pos, fi, got, ref):
         """compare one frame's records: got (from the batch) vs ref (singleton)."""
+        if "scores" in got and "scores" in ref and len(got["scores"]) == len(got["peaks"]) and len(ref["scores"]) == len(ref["peaks"]):
+            # bottom-up: the instance score travels with its instance
+            gp, gv, gs = _strip_nan_rows(got["peaks"], got["vals"], got["scores"])
+            rp, rv, rs = _strip_nan_rows(ref["peaks"], ref["vals"], ref["scores"])
+            gp, gv, gs = _sorted_rows(gp, gv, gs)
+            rp, rv, rs = _sorted_rows(rp, rv, rs)
+            if gp.shape == rp.shape and _close(gp, rp) and not _close(gs, rs):
+                res.fail(f"{model}:batch-dependence:instance-scores", f"{tag}: frame pool[{fi}] at batch position {pos}: instance scores {np.round(gs, 4).tolist()} in the batch vs {np.round(rs, 4).tolist()} alone; batch size {len(batch)}")
         gp, gv = _strip_nan_rows(got["peaks"], got["vals"])
         rp, rv = _strip_nan_rows(ref["peaks"], ref["vals"])
         gp, gv = _sorted_rows(gp, gv)
@@ -408,7 +417,7 @@ def strategy():
         stride = draw(st.sampled_from([1, 2]))
         n_nodes = draw(st.integers(2, 3))
         channels = n_nodes if model != "bottomup" else n_nodes + 2 * (n_nodes - 1)
-        h, w = draw(st.sampled_from([(24, 32), (32, 32), (40, 24)]))
+        h, w = draw(st.sampled_from([(24, 32), (32, 32), (40, 24)] + ([(16, 24), (16, 24)] if model == "bottomup" else [])))
         n_frames = draw(st.integers(2, 6))
         frames, meta = [], []
         for f in range(n_frames):
@@ -421,6 +430,8 @@ def strategy():
                 if model == "bottomup":
                     # an "animal": bump in every node channel along a short horizontal line + constant PAF along x
                     for n in range(n_nodes):
+                        if draw(st.integers(0, 4)) == 0:
+                            continue  # node not visible: its neighbours may connect across animals (long, penalised candidates)
                         bumps.append([n, min(w - 2, x + 4 * n), y, amp, 1.2])
                     for e in range(n_nodes - 1):  # x-component of the PAF of edge e between its two nodes
                         bumps.append([n_nodes + 2 * e, min(w - 2, x + 4 * e + 2), y, 0.9, 3.0])
@@ -432,10 +443,16 @@ def strategy():
             frames.append({"bumps": bumps, "noise": draw(st.sampled_from([0.0, 0.01, 0.05])), "noise_seed": draw(st.integers(0, 10**6))})
             meta.append([draw(st.integers(0, 50)) * 10 + f, draw(st.integers(0, 2)), draw(st.sampled_from([1.0, 0.5, 0.8]))])
         batch = draw(st.lists(st.integers(0, n_frames - 1), min_size=1 if draw(st.integers(0, 5)) == 0 else 2, max_size=4))
+        edge_ratio = 2.0
+        if model == "bottomup" and draw(st.booleans()):
+            # long batches of small frames (more frames than PAF rows/columns) with the default distance-penalty ratio:
+            # whatever is derived from tensor shapes must not pick up the batch dimension
+            edge_ratio = 0.25
+            batch = draw(st.lists(st.integers(0, n_frames - 1), min_size=14, max_size=22))
         return {
             "model": model, "refinement": refinement, "max_instances": k, "stride": stride, "paf_stride": draw(st.sampled_from([1, 2])),
             "n_nodes": n_nodes, "channels": channels, "h": h, "w": w, "thr": 0.2, "crop": draw(st.sampled_from([8, 12])),
-            "frames": frames, "meta": meta, "batch": batch,
+            "frames": frames, "meta": meta, "batch": batch, "edge_ratio": edge_ratio,
         }
 
     return case()
